@@ -1535,19 +1535,14 @@ fn display_cedarvaluejson(
                     None
                 }
             });
-            match style {
-                Some(ast::CallStyle::MethodStyle) => {
-                    #[expect(
-                        clippy::indexing_slicing,
-                        reason = "method-style calls must have more than one argument"
-                    )]
-                    display_cedarvaluejson(f, &args[0], n)?;
+            // A method-style call needs a receiver; with no arguments at all
+            // (possible for a `Value` node read from JSON) fall back to
+            // function-style printing instead of indexing out of bounds.
+            match (style, args.split_first()) {
+                (Some(ast::CallStyle::MethodStyle), Some((receiver, rest))) => {
+                    display_cedarvaluejson(f, receiver, n)?;
                     write!(f, ".{ext_fn}(")?;
-                    #[expect(
-                        clippy::indexing_slicing,
-                        reason = "method-style calls must have more than one argument"
-                    )]
-                    match &args[1..] {
+                    match rest {
                         [] => {}
                         [args @ .., last] => {
                             for arg in args {
@@ -1560,7 +1555,8 @@ fn display_cedarvaluejson(
                     write!(f, ")")?;
                     Ok(())
                 }
-                Some(ast::CallStyle::FunctionStyle) | None => {
+                (Some(ast::CallStyle::FunctionStyle) | None, _)
+                | (Some(ast::CallStyle::MethodStyle), None) => {
                     write!(f, "{ext_fn}(")?;
                     match &args[..] {
                         [] => {}
